@@ -51,7 +51,7 @@ func init() {
 		"vAST":     intrAST,
 		"vCalls":   intrCalls,
 		"vMapOrder": func(fr *frame, a []value) value {
-			fr.i.symMapOrder = a[0].(bool)
+			fr.i.symMapOrder = a[0].(int)
 			return nil
 		},
 		"vMonitorStart": intrMonitorStart,
